@@ -293,6 +293,7 @@ func runC20(c *core.Ctx) error {
 	}
 	checkMainExit(c, r4, mainFn, runFn)
 	checkFeatureSetValidated(c, prog)
+	checkWrapOfNilError(c, r4, prog, pkgCmd, pkgGen, pkgRoot, pkgParser, pkgJS, pkgIR)
 	return nil
 }
 
